@@ -158,6 +158,18 @@ func TestC02(t *testing.T) {
 		if pressed {
 			res.Label("bound-pressed")
 		}
+		// "At every instant ...": also in the process that resumes the plan after a crash
+		if sc := rr.Sc; sc.RecoverPermille > 0 && len(res.Violations) == 0 && !rr.Stalled && !sc.HasOverrun() {
+			if rr1, ok := lab.RecoverAtPrefix(sc, rr, sc.RecoverPermille); ok {
+				res.Label("bound-judged-after-restart")
+				if lab.CheckC02(rr1, res) {
+					res.Label("bound-pressed-after-restart")
+				}
+				if n := len(res.Violations); n > 0 {
+					res.Violations[n-1].Rule += ":after-restart"
+				}
+			}
+		}
 	}))
 }
 
